@@ -574,6 +574,11 @@ func CheckUnmarshal(o Obs, packet bool, in []byte) bool {
 		o.Count("diag_vt_accepts_generic_rejects", 1)
 	case v.diff(g) != "":
 		o.Count("diag_both_accept_values_differ", 1)
+		d := v.diff(g)
+		if len(d) > 60 {
+			d = d[:60]
+		}
+		o.AddSet("diag_differing_decodes", kind+": "+d+" input="+Hex(in))
 	default:
 		o.Count("diag_both_accept_same_value", 1)
 	}
